@@ -2,6 +2,9 @@
    reference (StreeSpec.spec_step: sorted lists) on the implementation's own outputs.
    Elements are OCaml pairs (key, payload) compared by key. *)
 
+(* big trees allocate gigabytes of short-lived Z digits: a roomy minor heap halves the run time *)
+let () = Gc.set { (Gc.get ()) with Gc.minor_heap_size = 4 * 1024 * 1024; Gc.space_overhead = 200 }
+
 (* ---- the depth limit: largest k with 2000^k <= n * (1000+b)^k, exactly; n+1 at b = 1000.
    Small naturals-only bignum (little endian, base 2^30); one incremental table per beta. *)
 let bbits = 30
@@ -66,27 +69,40 @@ let show_es (l : e list) = if l = [] then "." else String.concat "," (List.map s
 let show_opt_e = function Some e -> show_e e | None -> "0_0"
 
 (* <order><style>, as in the harness: the same numbers, not just the same signs *)
-let cmp_for (s : string) : (e -> e -> M.z) =
+let z_min64 = z_of_string "-9223372036854775808"
+let z_max64 = z_of_string "9223372036854775807"
+let split_cmp (s : string) : char * string =
   if s = "" then failwith "bad cmp";
   let n = String.length s in
-  let style, body =
-    match s.[n - 1] with
-    | 'd' | 't' | 'v' | 'x' | 'k' as c when n > 1 -> (c, String.sub s 0 (n - 1))
-    | _ -> (' ', s) in
-  let pos : e -> int =
-    if body = "n" then (fun (k, _) -> k)
-    else if body = "r" then (fun (k, _) -> - k)
-    else if String.length body > 1 && body.[0] = 'm' then begin
-      let j = int_of_string (String.sub body 1 (String.length body - 1)) in
-      if j <= 0 then failwith "bad cmp";
-      (fun (k, _) -> ((k mod j) + j) mod j)
-    end else failwith "bad cmp" in
+  match s.[n - 1] with
+  | 'd' | 't' | 'v' | 'x' | 'k' | 'e' as c when n > 1 -> (c, String.sub s 0 (n - 1))
+  | _ -> (' ', s)
+(* the position of an element in the order (equal positions = equivalent elements) *)
+let pos_for (s : string) : e -> int =
+  let (_, body) = split_cmp s in
+  if body = "n" then (fun (k, _) -> k)
+  else if body = "r" then (fun (k, _) -> - k)
+  else if String.length body > 1 && body.[0] = 'm' then begin
+    let j = int_of_string (String.sub body 1 (String.length body - 1)) in
+    if j <= 0 then failwith "bad cmp";
+    (fun (k, _) -> ((k mod j) + j) mod j)
+  end else failwith "bad cmp"
+(* comparison results as Z: the small ones are shared (big trees make millions of comparisons) *)
+let zc_span = 1 lsl 15
+let zc_tab : M.z array Lazy.t = lazy (Array.init (2 * zc_span + 1) (fun i -> z_of_int (i - zc_span)))
+let zc v = if v >= - zc_span && v <= zc_span then (Lazy.force zc_tab).(v + zc_span) else z_of_int v
+let cmp_for (s : string) : (e -> e -> M.z) =
+  let z_of_int = zc in
+  let z_x1 = M.Zpos (pos_of_int (1 lsl 40)) and z_x0 = M.Zneg (pos_of_int (1 lsl 40)) in
+  let (style, _) = split_cmp s in
+  let pos = pos_for s in
   let sign d = compare d 0 in
   match style with
   | 'd' -> (fun a b -> z_of_int (pos a - pos b))
   | 't' -> (fun a b -> z_of_int (3 * (pos a - pos b)))
   | 'v' -> (fun ((_, pa) as a) ((_, pb) as b) -> z_of_int ((pos a - pos b) * (1 + (abs pa + abs pb) mod 5)))
-  | 'x' -> (fun a b -> z_of_int (sign (pos a - pos b) * (1 lsl 40)))
+  | 'x' -> (fun a b -> let d = pos a - pos b in if d < 0 then z_x0 else if d > 0 then z_x1 else M.Z0)
+  | 'e' -> (fun a b -> let d = pos a - pos b in if d < 0 then z_min64 else if d > 0 then z_max64 else M.Z0)
   | _ -> (fun a b -> z_of_int (sign (pos a - pos b)))
 
 (* ---- hashes, identical to the harness *)
@@ -185,10 +201,263 @@ let eval_history cmpname opss =
   with Exit -> ());
   String.concat ";" (List.rev !outs)
 
+(* ================================================================== big trees (B lines, harness scale.go) *)
+
+(* ---- key sequences, exactly as in the harness *)
+let perm_of n seed =
+  let p = Array.init n (fun i -> i) in
+  let x = ref (((seed mod 2147483648) + 2147483648) mod 2147483648) in
+  for i = n - 1 downto 1 do
+    x := (!x * 1103515245 + 12345) mod 2147483648;
+    let j = (!x lsr 8) mod (i + 1) in
+    let t = p.(i) in p.(i) <- p.(j); p.(j) <- t
+  done;
+  p
+
+let order_idx pat n seed : int array =
+  match pat with
+  | 'a' -> Array.init n (fun i -> i)
+  | 'd' -> Array.init n (fun i -> n - 1 - i)
+  | 'z' | 'i' ->
+    let out = Array.make n 0 in
+    let lo = ref 0 and hi = ref (n - 1) and w = ref 0 in
+    while !lo <= !hi do
+      out.(!w) <- !lo; incr w;
+      if !lo <> !hi then begin out.(!w) <- !hi; incr w end;
+      incr lo; decr hi
+    done;
+    if pat = 'i' then Array.init n (fun i -> out.(n - 1 - i)) else out
+  | 'r' -> perm_of n seed
+  | _ -> raise Bad
+
+let max_seq = 1 lsl 16
+let keys_of_ks (s : string) : int list =
+  match String.split_on_char ',' s with
+  | "e" :: rest ->
+    if List.length rest > max_seq then raise Bad;
+    List.map (fun x -> match int_of_string_opt x with Some v -> v | None -> raise Bad) rest
+  | [pat; lo; step; n; rep; take; seed] when String.length pat = 1 ->
+    let iv x = match int_of_string_opt x with Some v -> v | None -> raise Bad in
+    let lo = iv lo and step = iv step and n = iv n and rep = iv rep and take = iv take and seed = iv seed in
+    if n < 0 || n > max_seq || rep < 1 || take < 0 || take > n || abs lo > 1 lsl 40 || abs step > 1 lsl 20 then raise Bad;
+    let idx = order_idx pat.[0] n seed in
+    List.init take (fun j -> lo + step * (idx.(j) / rep))
+  | _ -> raise Bad
+
+(* ---- sequences of small integers: v | vxc | +c | -c, '.'-separated, ~ for a negative value *)
+let enc_seq (xs : int list) : string =
+  let a = Array.of_list xs in
+  let n = Array.length a in
+  if n = 0 then "." else begin
+    let num v = if v < 0 then "~" ^ string_of_int (- v) else string_of_int v in
+    let toks = ref [] in
+    let i = ref 0 in
+    while !i < n do
+      if !i > 0 && (a.(!i) = a.(!i - 1) + 1 || a.(!i) = a.(!i - 1) - 1) then begin
+        let d = a.(!i) - a.(!i - 1) in
+        let j = ref !i in
+        while !j < n && a.(!j) = a.(!j - 1) + d do incr j done;
+        toks := ((if d < 0 then "-" else "+") ^ string_of_int (!j - !i)) :: !toks;
+        i := !j
+      end else begin
+        let j = ref !i in
+        while !j < n && a.(!j) = a.(!i) do incr j done;
+        toks := (if !j - !i = 1 then num a.(!i) else num a.(!i) ^ "x" ^ string_of_int (!j - !i)) :: !toks;
+        i := !j
+      end
+    done;
+    String.concat "." (List.rev !toks)
+  end
+
+let dec_seq (s : string) : int list =
+  if s = "." || s = "" then [] else begin
+    let out = ref [] and prev = ref 0 and total = ref 0 in
+    let put v = incr total; if !total > 4 * max_seq then raise Bad; out := v :: !out; prev := v in
+    let nat x = match int_of_string_opt x with Some v when v >= 0 -> v | _ -> raise Bad in
+    List.iter (fun tok ->
+      let l = String.length tok in
+      if l = 0 then raise Bad;
+      match tok.[0] with
+      | '+' -> if !out = [] then raise Bad; for _ = 1 to nat (String.sub tok 1 (l - 1)) do put (!prev + 1) done
+      | '-' -> if !out = [] then raise Bad; for _ = 1 to nat (String.sub tok 1 (l - 1)) do put (!prev - 1) done
+      | _ ->
+        let (vs, c) = match String.index_opt tok 'x' with
+          | Some i -> (String.sub tok 0 i, nat (String.sub tok (i + 1) (l - i - 1)))
+          | None -> (tok, 1) in
+        let v = if String.length vs > 0 && vs.[0] = '~' then - (nat (String.sub vs 1 (String.length vs - 1))) else nat vs in
+        for _ = 1 to c do put v done) (String.split_on_char '.' s);
+    List.rev !out
+  end
+
+(* ---- macros *)
+type macro =
+  | MNew of int
+  | MBulk of int * int list * int list      (* beta, keys, oracle (ordinal of the kept member per class) *)
+  | MClone of int
+  | MClear of int
+  | MMut of char * int * int list           (* 'A' | 'P' | 'D', tree, keys *)
+  | MGet of int * int list
+  | MAfter of int * int list * int
+  | MInorder of int * int
+
+let parse_macro (m : string) : macro =
+  if m = "" then raise Bad;
+  let f = String.split_on_char ':' (String.sub m 1 (String.length m - 1)) in
+  let iv x = match int_of_string_opt x with Some v -> v | None -> raise Bad in
+  let beta x = let b = iv x in if b < 0 || b > 1000 then raise Bad else b in
+  let tree x = let t = iv x in if t < 0 then raise Bad else t in
+  let stop x = let s = iv x in if s < -1 then raise Bad else s in
+  match m.[0], f with
+  | 'N', [b] -> MNew (beta b)
+  | 'K', [b; ks; o] -> MBulk (beta b, keys_of_ks ks, dec_seq o)
+  | 'C', [t] -> MClone (tree t)
+  | 'X', [t] -> MClear (tree t)
+  | ('A' | 'P' | 'D'), [t; ks] -> MMut (m.[0], tree t, keys_of_ks ks)
+  | 'Q', [t; ks] -> MGet (tree t, keys_of_ks ks)
+  | 'I', [t; ks; s] -> MAfter (tree t, keys_of_ks ks, stop s)
+  | 'F', [t; s] -> MInorder (tree t, stop s)
+  | _ -> raise Bad
+
+let checkpoint_every m = max 4 ((m + 7) / 8)
+
+(* the oracle of a bulk New as indices into the keys: for every class in ascending order the member
+   with the given ordinal (argument order); anything malformed becomes an index out of range, which
+   both the model and the reference reject *)
+let bulk_picks (pos : e -> int) (keys : e list) (oracle : int list) : int list =
+  let n = List.length keys in
+  let seen : (int, int) Hashtbl.t = Hashtbl.create 64 in
+  let where : (int * int, int) Hashtbl.t = Hashtbl.create 64 in
+  List.iteri (fun i k ->
+    let c = pos k in
+    let o = try Hashtbl.find seen c with Not_found -> 0 in
+    Hashtbl.replace seen c (o + 1);
+    Hashtbl.replace where (c, o) i) keys;
+  let classes = List.sort compare (Hashtbl.fold (fun c _ acc -> c :: acc) seen []) in
+  if List.length classes <> List.length oracle then List.map (fun _ -> n) oracle
+  else List.map2 (fun c o -> try Hashtbl.find where (c, o) with Not_found -> n) classes oracle
+
+let feed_e h ((k, p) : e) = feed (feed h k) p
+let feed_opt h = function Some e -> feed_e (feed h 1) e | None -> feed (feed (feed h 0) 0) 0
+
+(* the summary of a tree as in the H lines, but the Inorder digest is fed by the model's own traversal
+   (node.inorder = inorder_until) with a consumer that hashes instead of collecting: the history step
+   OInorder reverses its log with Coq's quadratic rev *)
+let model_summary_big cmp limit (st : e M.state) (i : int) (t : e M.tree0) =
+  let ask o = snd (M.step cmp limit st o) in
+  let ix = nat_of_int i in
+  let len = match ask (M.OLen ix) with M.RInt z -> string_of_int (int_of_z z) | _ -> "?" in
+  let emp = match ask (M.OIsEmpty ix) with M.RBool b -> b01 b | _ -> "?" in
+  let mn = match ask (M.OMin ix) with M.ROpt o -> show_opt_e o | _ -> "?" in
+  let mx = match ask (M.OMax ix) with M.ROpt o -> show_opt_e o | _ -> "?" in
+  let ih = show_hash (fst (M.inorder_until (fun h x -> (feed_e h x, true)) t.M.root (0, 0))) in
+  String.concat "," [len; emp; mn; mx; string_of_int (int_of_z t.M.maxsize); string_of_int (int_of_z (M.size t.M.root)); ih;
+                     show_hash (hash_shape (0, 0) t.M.root)]
+
+(* min(limit_exact b n, n): StreeModel under it goes through the same states as under limit_exact
+   (C02_capped_same), and the search for a vine-friendly balance factor stops at n instead of 2000 ln n *)
+let ctabs : (int, ltab) Hashtbl.t = Hashtbl.create 16
+let limit_capped (b : int) (n : int) : int =
+  if b >= 1000 then n + 1
+  else if n < 1 then 0
+  else begin
+    let t = match Hashtbl.find_opt ctabs b with
+      | Some t -> t
+      | None -> let t = { k = 0; pa = [|1|]; pb = [|1|]; vals = Array.make 64 0; upto = 0 } in Hashtbl.add ctabs b t; t in
+    while t.upto < n do
+      let m = t.upto + 1 in
+      let continue = ref true in
+      while !continue && t.k < m do
+        let a2 = big_mul_small t.pa 2000 and b2 = big_mul_small t.pb (1000 + b) in
+        if big_cmp a2 (big_mul_small b2 m) <= 0 then begin t.pa <- a2; t.pb <- b2; t.k <- t.k + 1 end
+        else continue := false
+      done;
+      if m >= Array.length t.vals then begin
+        let v = Array.make (2 * m) 0 in Array.blit t.vals 0 v 0 (Array.length t.vals); t.vals <- v end;
+      t.vals.(m) <- t.k; t.upto <- m;
+      if m <= 40 && t.k <> min m (limit_exact b m) then failwith "capped limit differs from the exact one"
+    done;
+    t.vals.(n)
+  end
+let limit_zc (b : M.z) (n : M.z) : M.z = z_of_int (limit_capped (int_of_z b) (int_of_z n))
+
+let eval_big cmpname prog =
+  let limit_z = limit_zc in
+  let model_summaries cmp st = String.concat "+" (List.mapi (fun i t -> model_summary_big cmp limit_z st i t) st) in
+  let cmp = cmp_for cmpname and pos = pos_for cmpname in
+  let outs = ref [] in
+  let push s = outs := s :: !outs in
+  let st = ref ([] : e M.state) in
+  let p = ref 0 in
+  let el k = incr p; (k, !p) in
+  let step o = let (st', r) = M.step cmp limit_z !st o in st := st'; r in
+  let fail_of = function
+    | M.RPanic -> push "panic:nil"; raise Exit
+    | M.RFuel -> push "OUT-OF-FUEL"; raise Exit
+    | M.RBadOracle -> push "BAD-ORACLE"; raise Exit
+    | _ -> raise Bad in
+  let ix t = if t >= List.length !st then raise Bad else nat_of_int t in
+  let sums () = model_summaries cmp !st in
+  (try
+    List.iter (fun m ->
+      match parse_macro m with
+      | MNew b ->
+        (match step (M.ONew (z_of_int b, [], [])) with M.RUnit -> push ("u/" ^ sums ()) | r -> fail_of r)
+      | MBulk (b, ks, oracle) ->
+        let keys = List.map el ks in
+        let picks = List.map nat_of_int (bulk_picks pos keys oracle) in
+        (match step (M.ONew (z_of_int b, keys, picks)) with
+         | M.RUnit -> push ("u/" ^ sums ())
+         | M.RPanic -> push "panic:index"; raise Exit
+         | r -> fail_of r)
+      | MClone t -> (match step (M.OClone (ix t)) with M.RUnit -> push ("u/" ^ sums ()) | r -> fail_of r)
+      | MClear t -> (match step (M.OClear (ix t)) with M.RUnit -> push ("u/" ^ sums ()) | r -> fail_of r)
+      | MMut (c, t, ks) ->
+        let i = ix t in
+        let m = List.length ks in
+        let every = checkpoint_every m in
+        let obs = ref (0, 0) and inn = ref (0, 0) and trues = ref 0 and cps = ref [] in
+        List.iteri (fun j k ->
+          let e = el k in
+          let r = step (match c with 'A' -> M.OAdd (i, e) | 'P' -> M.OReplace (i, e) | _ -> M.ORemove (i, e)) in
+          (match r with
+           | M.RBool b -> if b then incr trues; obs := feed !obs (if b then 1 else 0)
+           | r -> fail_of r);
+          (match step (M.OLen i) with M.RInt z -> obs := feed !obs (int_of_z z) | _ -> raise Bad);
+          (match step (M.OIsEmpty i) with M.RBool b -> obs := feed !obs (if b then 1 else 0) | _ -> raise Bad);
+          (match step (M.OMin i) with M.ROpt (Some e) -> obs := feed_e !obs e | M.ROpt None -> obs := feed (feed !obs 0) 0 | _ -> raise Bad);
+          (match step (M.OMax i) with M.ROpt (Some e) -> obs := feed_e !obs e | M.ROpt None -> obs := feed (feed !obs 0) 0 | _ -> raise Bad);
+          (match step (M.OGet (i, e)) with M.ROpt o -> obs := feed_opt !obs o | _ -> raise Bad);
+          (match M.nth_error !st i with Some tr -> inn := feed !inn (int_of_z tr.M.maxsize) | None -> raise Bad);
+          if (j + 1) mod every = 0 || j = m - 1 then cps := sums () :: !cps) ks;
+        push (String.concat "/" (Printf.sprintf "%d,%s,%s" !trues (show_hash !obs) (show_hash !inn) :: List.rev !cps))
+      | MGet (t, ks) ->
+        let i = ix t in
+        let h = ref (0, 0) and found = ref 0 in
+        List.iter (fun k ->
+          match step (M.OGet (i, el k)) with
+          | M.ROpt o -> (if o <> None then incr found); h := feed_opt !h o
+          | _ -> raise Bad) ks;
+        push (Printf.sprintf "%d,%s" !found (show_hash !h))
+      | MAfter (t, ks, s) ->
+        let i = ix t in
+        let h = ref (0, 0) and total = ref 0 in
+        List.iter (fun k ->
+          match step (M.OInorderAfter (i, el k, stop_of (string_of_int s))) with
+          | M.RList l -> total := !total + List.length l; h := feed (List.fold_left feed_e !h l) (-1)
+          | r -> fail_of r) ks;
+        push (Printf.sprintf "%d,%s" !total (show_hash !h))
+      | MInorder (t, s) ->
+        (match step (M.OInorder (ix t, stop_of (string_of_int s))) with
+         | M.RList l -> push (Printf.sprintf "%d,%s" (List.length l) (show_hash (feed (List.fold_left feed_e (0, 0) l) (-1))))
+         | r -> fail_of r)) (String.split_on_char ';' prog)
+  with Exit -> ());
+  String.concat ";" (List.rev !outs)
+
 let eval inp =
   try
     match words inp with
     | ["H"; c; ops] -> eval_history c ops
+    | ["B"; c; prog] -> eval_big c prog
     | ["L"; b; lo; hi] ->
       let b = int_of_string b and lo = int_of_string lo and hi = int_of_string hi in
       if b < 0 || b > 1000 || lo < 1 || hi < lo || hi - lo > 100000 then "BAD"
@@ -298,11 +567,216 @@ let spec_history cmpname opss out : string option =
       end in
   go 0 ops outs
 
+(* ---- the property on the implementation's output of a B line.  The reference is a sorted set written
+   directly: a map from the position of a class in the order to the stored representative (the sorted
+   lists of StreeSpec cost a whole pass per operation).  On lines that create at most xcheck_max
+   elements the extracted reference StreeSpec.spec_step runs alongside and must agree with it after
+   every operation. *)
+module IM = Map.Make (Int)
+let xcheck_max = 600
+exception Disagree of string
+let rec seq_take n (s : 'a Seq.t) : 'a Seq.t = fun () ->
+  if n <= 0 then Seq.Nil else match s () with Seq.Nil -> Seq.Nil | Seq.Cons (x, r) -> Seq.Cons (x, seq_take (n - 1) r)
+
+let macro_keys = function
+  | MBulk (_, ks, _) | MMut (_, _, ks) | MGet (_, ks) | MAfter (_, ks, _) -> List.length ks
+  | _ -> 0
+
+let spec_big cmpname prog out : string option =
+  let cmp = cmp_for cmpname and pos = pos_for cmpname in
+  let macros = List.map (fun m -> (m, parse_macro m)) (String.split_on_char ';' prog) in
+  let items = if out = "" then [] else String.split_on_char ';' out in
+  let xcheck = List.fold_left (fun a (_, m) -> a + macro_keys m) 0 macros <= xcheck_max in
+  let st : e IM.t array ref = ref [||] in
+  let card : int array ref = ref [||] in                   (* IM.cardinal takes a whole pass *)
+  let xs = ref ([] : e list list) in                       (* the extracted reference, when xcheck *)
+  let p = ref 0 in
+  let el k = incr p; (k, !p) in
+  let lists () = Array.to_list (Array.map (fun m -> List.map snd (IM.bindings m)) !st) in
+  let tree t = if t >= Array.length !st then raise Bad else t in
+  let set t m n = !st.(t) <- m; !card.(t) <- n in
+  let push_tree m n = st := Array.append !st [| m |]; card := Array.append !card [| n |] in
+  let disagree what = raise (Disagree ("the direct reference and StreeSpec disagree: " ^ what)) in
+  let xstep o =
+    if xcheck then begin
+      let (xs', r) = M.spec_step cmp !xs o in xs := xs'; Some r
+    end else None in
+  let xsame () = if xcheck && !xs <> lists () then disagree "contents" in
+  let check_sums i mname sums : string option =
+    let parts = String.split_on_char '+' sums in
+    let ls = lists () in
+    if List.length parts <> List.length ls then Some (Printf.sprintf "macro#%d %s: number of live trees" i mname) else begin
+      let bad = ref None in
+      List.iteri (fun j (s, l) ->
+        if !bad = None then
+          let say m = bad := Some (Printf.sprintf "macro#%d %s: tree %d: %s" i mname j m) in
+          match String.split_on_char ',' s with
+          | [len; emp; mn; mx; _tmax; nodes; ih; _sh] ->
+            let n = List.length l in
+            let last = (match List.rev l with x :: _ -> Some x | [] -> None) in
+            if len <> string_of_int n then say (Printf.sprintf "Len = %s, the reference set has %d" len n)
+            else if emp <> b01 (n = 0) then say ("IsEmpty = " ^ emp)
+            else if mn <> show_opt_e (match l with x :: _ -> Some x | [] -> None) then say ("Min = " ^ mn)
+            else if mx <> show_opt_e last then say ("Max = " ^ mx)
+            else if nodes <> len then say ("cached size " ^ len ^ " but " ^ nodes ^ " nodes")
+            else if ih <> show_hash (hash_list l) then say "Inorder differs from the reference set"
+          | _ -> say "bad summary") (List.combine parts ls);
+      !bad
+    end in
+  let is_fail x = x = "hang" || (String.length x >= 6 && String.sub x 0 6 = "panic:") in
+  let short m = if String.length m > 60 then String.sub m 0 60 ^ "..." else m in
+  let rec go i macros items =
+    match macros, items with
+    | [], [] -> None
+    | [], _ -> Some "more items than macros"
+    | (mname, _) :: _, [] -> Some (Printf.sprintf "macro#%d %s: no output (the history stopped early)" i (short mname))
+    | (mname, _) :: _, x :: _ when is_fail x -> Some (Printf.sprintf "macro#%d %s: %s" i (short mname) x)
+    | (mname, m) :: macros', x :: items' ->
+      let mname = short mname in
+      let fail msg = Some (Printf.sprintf "macro#%d %s: %s" i mname msg) in
+      let next () = go (i + 1) macros' items' in
+      let unit_item () =
+        match String.index_opt x '/' with
+        | Some 1 when x.[0] = 'u' ->
+          xsame ();
+          (match check_sums i mname (String.sub x 2 (String.length x - 2)) with Some r -> Some r | None -> next ())
+        | _ -> fail "bad output" in
+      (match m with
+       | MNew _ ->
+         push_tree IM.empty 0;
+         ignore (xstep (M.ONew (z_of_int 0, [], [])));
+         unit_item ()
+       | MBulk (b, ks, oracle) ->
+         let keys = List.map el ks in
+         (* one given key per class, the member the oracle names *)
+         let picks = bulk_picks pos keys oracle in
+         let arr = Array.of_list keys in
+         let n = Array.length arr in
+         if List.exists (fun j -> j >= n) picks then
+           fail "the contents after New are not one given key per class (one of the equivalent keys given)"
+         else begin
+           let m = List.fold_left (fun m j -> IM.add (pos arr.(j)) arr.(j) m) IM.empty picks in
+           push_tree m (IM.cardinal m);
+           (match xstep (M.ONew (z_of_int b, keys, List.map nat_of_int picks)) with
+            | Some M.RUnit | None -> ()
+            | Some _ -> disagree "New");
+           unit_item ()
+         end
+       | MClone t ->
+         let t = tree t in
+         push_tree !st.(t) !card.(t);
+         ignore (xstep (M.OClone (nat_of_int t)));
+         unit_item ()
+       | MClear t ->
+         let t = tree t in
+         set t IM.empty 0;
+         ignore (xstep (M.OClear (nat_of_int t)));
+         unit_item ()
+       | MMut (c, t, ks) ->
+         let t = tree t in
+         (match String.split_on_char '/' x with
+          | [] -> fail "bad output"
+          | head :: cps ->
+            let cps = ref cps in
+            let n = List.length ks in
+            let every = checkpoint_every n in
+            let obs = ref (0, 0) and trues = ref 0 and res = ref None in
+            List.iteri (fun j k ->
+              if !res = None then begin
+                let e = el k in
+                let m = !st.(t) in
+                let c0 = pos e in
+                let present = IM.mem c0 m in
+                let (m', r) = match c with
+                  | 'A' -> ((if present then m else IM.add c0 e m), not present)
+                  | 'P' -> (IM.add c0 e m, not present)
+                  | _ -> (IM.remove c0 m, present) in
+                let n' = !card.(t) + (if not r then 0 else if c = 'D' then -1 else 1) in
+                set t m' n';
+                (match xstep (match c with 'A' -> M.OAdd (nat_of_int t, e) | 'P' -> M.OReplace (nat_of_int t, e) | _ -> M.ORemove (nat_of_int t, e)) with
+                 | Some (M.RBool b) -> if b <> r then disagree "result"
+                 | None -> ()
+                 | Some _ -> disagree "result");
+                if r then incr trues;
+                obs := feed !obs (if r then 1 else 0);
+                obs := feed !obs n';
+                obs := feed !obs (if IM.is_empty m' then 1 else 0);
+                (match IM.min_binding_opt m' with Some (_, e) -> obs := feed_e !obs e | None -> obs := feed (feed !obs 0) 0);
+                (match IM.max_binding_opt m' with Some (_, e) -> obs := feed_e !obs e | None -> obs := feed (feed !obs 0) 0);
+                obs := feed_opt !obs (IM.find_opt c0 m');
+                if (j + 1) mod every = 0 || j = n - 1 then begin
+                  xsame ();
+                  match !cps with
+                  | [] -> res := fail (Printf.sprintf "no checkpoint after call %d" (j + 1))
+                  | s :: rest ->
+                    cps := rest;
+                    (match check_sums i (Printf.sprintf "%s after call %d of %d" mname (j + 1) n) s with
+                     | Some r -> res := Some r
+                     | None -> ())
+                end
+              end) ks;
+            if !res <> None then !res
+            else if !cps <> [] then fail "more checkpoints than expected"
+            else (match String.split_on_char ',' head with
+              | [tr; ob; _int] ->
+                if tr <> string_of_int !trues then fail (Printf.sprintf "%s calls returned true, reference %d" tr !trues)
+                else if ob <> show_hash !obs then fail "results, Len, IsEmpty, Min, Max or Get after some call differ from the reference"
+                else next ()
+              | _ -> fail "bad output"))
+       | MGet (t, ks) ->
+         let t = tree t in
+         let h = ref (0, 0) and found = ref 0 in
+         List.iter (fun k ->
+           let e = el k in
+           let o = IM.find_opt (pos e) !st.(t) in
+           (match xstep (M.OGet (nat_of_int t, e)) with
+            | Some (M.ROpt o') -> if o <> o' then disagree "Get"
+            | None -> ()
+            | Some _ -> disagree "Get");
+           if o <> None then incr found;
+           h := feed_opt !h o) ks;
+         let want = Printf.sprintf "%d,%s" !found (show_hash !h) in
+         if x = want then next () else fail (Printf.sprintf "Get results %s, reference %s" x want)
+       | MAfter (t, ks, s) ->
+         let t = tree t in
+         let h = ref (0, 0) and total = ref 0 in
+         List.iter (fun k ->
+           let e = el k in
+           (* the elements not less than k, the first s+1 of them *)
+           let (_, eq, above) = IM.split (pos e) !st.(t) in
+           let seq = Seq.append (match eq with Some v -> Seq.return v | None -> Seq.empty) (Seq.map snd (IM.to_seq above)) in
+           let l = List.of_seq (if s < 0 then seq else seq_take (s + 1) seq) in
+           (match xstep (M.OInorderAfter (nat_of_int t, e, stop_of (string_of_int s))) with
+            | Some (M.RList l') -> if l <> l' then disagree "InorderAfter"
+            | None -> ()
+            | Some _ -> disagree "InorderAfter");
+           total := !total + List.length l;
+           h := feed (List.fold_left feed_e !h l) (-1)) ks;
+         let want = Printf.sprintf "%d,%s" !total (show_hash !h) in
+         if x = want then next ()
+         else if x = want ^ "!" then fail "yield called again after it returned false"
+         else fail (Printf.sprintf "InorderAfter delivers %s, reference %s" x want)
+       | MInorder (t, s) ->
+         let t = tree t in
+         let seq = Seq.map snd (IM.to_seq !st.(t)) in
+         let l = List.of_seq (if s < 0 then seq else seq_take (s + 1) seq) in
+         (match xstep (M.OInorder (nat_of_int t, stop_of (string_of_int s))) with
+          | Some (M.RList l') -> if l <> l' then disagree "Inorder"
+          | None -> ()
+          | Some _ -> disagree "Inorder");
+         let want = Printf.sprintf "%d,%s" (List.length l) (show_hash (feed (List.fold_left feed_e (0, 0) l) (-1))) in
+         if x = want then next ()
+         else if x = want ^ "!" then fail "yield called again after it returned false"
+         else fail (Printf.sprintf "Inorder delivers %s, reference %s" x want)) in
+  go 0 macros items
+
 let spec prop inp out =
   if out = "BAD" then None else
   match prop, words inp with
   | ("C01" | "C02"), ["H"; c; ops] when prop = "C01" ->
     (try spec_history c ops out with Bad | Failure _ | Not_found | Invalid_argument _ -> None)
+  | "C01", ["B"; c; prog] ->
+    (try spec_big c prog out with Bad -> None)
   | _ -> None
 
 let () = run_main ~eval ~spec
